@@ -75,7 +75,8 @@ func belongs(o *Obligation, ct *Contract, prop string) bool {
 			fp = ct.Props
 		}
 		if has(fp, "C05") {
-			return prop == "C05"
+			// a decoder that panics or over-reads also fails to "reject with an error" (C07)
+			return prop == "C05" || (prop == "C07" && has(fp, "C07"))
 		}
 		return has(fp, prop)
 	}
